@@ -470,6 +470,19 @@ func (g *gen) rpc(id int) *RPC {
 					if o.K == "closesend" && !moved {
 						moved = true
 						pos := g.pick(len(b) + 1)
+						if http {
+							// half duplex: the server answers only after the
+							// request has ended, so the goroutine that closes
+							// must do so before it waits for anything
+							first := len(b)
+							for j, bo := range b {
+								if bo.K == "recv" || bo.K == "recvall" || bo.K == "header" {
+									first = j
+									break
+								}
+							}
+							pos = g.pick(first + 1)
+						}
 						b = append(b[:pos], append([]Op{o}, b[pos:]...)...)
 						continue
 					}
